@@ -24,6 +24,17 @@ func (h *H) replay(op []string) (string, bool) {
 		}
 		_, res := decode(seq)
 		return res, true
+	case "e2e":
+		// end-to-end cases need the bytes; the replay re-decodes the parsed sequence directly
+		if len(op) != 4 {
+			return "", false
+		}
+		seq, ok := untokSeq(op[2])
+		if !ok {
+			return "", false
+		}
+		_, res := decode(seq)
+		return res, true
 	case "mat":
 		if len(op) != 5 {
 			return "", false
